@@ -28,6 +28,18 @@ Proof. unfold zlen. now rewrite le_bytes_length. Qed.
 Lemma to_nat_zlen {A} (a : list A) : Z.to_nat (zlen a) = length a.
 Proof. unfold zlen. lia. Qed.
 
+Lemma zfirstn_eq {A} n (l : list A) : zfirstn n l = firstn (Z.to_nat n) l.
+Proof.
+  unfold zfirstn, zlen. destruct (Z.min_spec n (Z.of_nat (length l))) as [[_ ->]|[Hlt ->]]; [reflexivity|].
+  rewrite Nat2Z.id, firstn_all, firstn_all2 by lia. reflexivity.
+Qed.
+
+Lemma zskipn_eq {A} n (l : list A) : zskipn n l = skipn (Z.to_nat n) l.
+Proof.
+  unfold zskipn, zlen. destruct (Z.min_spec n (Z.of_nat (length l))) as [[_ ->]|[Hlt ->]]; [reflexivity|].
+  rewrite Nat2Z.id, skipn_all, skipn_all2 by lia. reflexivity.
+Qed.
+
 (* ====================================================================== packed records *)
 Lemma parse_fields_enc ws vs rest :
   Forall2 fits ws vs -> parse_fields ws (enc_fields ws vs ++ rest) = Some vs.
@@ -183,7 +195,7 @@ Proof.
       change K.len_width with 4.
       rewrite (take_uint_app 4 (2 * zlen u)) by (pose proof (zlen_nonneg u); change (256 ^ 4) with (2 ^ 32); lia).
       cbn [bind]. change (Z.to_nat 4) with 4%nat.
-      rewrite skipn_app_len by apply le_bytes_length.
+      rewrite skipn_app_len by apply le_bytes_length. rewrite zfirstn_eq.
       rewrite firstn_app_len by (rewrite <- units_bytes_length; symmetry; apply to_nat_zlen).
       change (6 =? E.hyperv_KeyDataType_String) with true. cbn iota.
       rewrite units_of_bytes by exact Hu. rewrite Hv. reflexivity.
@@ -194,7 +206,7 @@ Proof.
       change K.len_width with 4.
       rewrite (take_uint_app 4 (zlen b)) by (pose proof (zlen_nonneg b); change (256 ^ 4) with (2 ^ 32); lia).
       cbn [bind]. change (Z.to_nat 4) with 4%nat.
-      rewrite skipn_app_len by apply le_bytes_length.
+      rewrite skipn_app_len by apply le_bytes_length. rewrite zfirstn_eq.
       rewrite firstn_app_len by (symmetry; apply to_nat_zlen).
       reflexivity.
   - unfold e_value, e_data. rewrite Hf, Hd. unfold fop_of.
@@ -254,7 +266,7 @@ Proof.
     destruct Hend as [[-> ->]|(Hl & Hz & Hlt)].
     + destruct fuel; cbn [walk]; rewrite Z.add_0_r, Z.ltb_irrefl; reflexivity.
     + destruct fuel as [|fuel]; [cbn in Hfuel; lia|]. cbn [walk].
-      destruct (Z.ltb_spec eoff size); [|lia].
+      destruct (Z.ltb_spec eoff size); [|lia]. rewrite zskipn_eq.
       rewrite skipn_app_len by (rewrite <- Hpre; symmetry; apply to_nat_zlen).
       destruct (zero_tail_parses tail Hl Hz) as (h & -> & ->). reflexivity.
   - inversion Hok as [|? ? He Hes]; subst.
@@ -264,7 +276,7 @@ Proof.
     cbn [total_size fold_right] in Hend. fold (total_size es) in Hend.
     destruct fuel as [|fuel]; [cbn in Hfuel; lia|]. cbn [walk].
     destruct (Z.ltb_spec (zlen pre) size) as [_|Hge]; [|destruct Hend as [[_ ->]|(_ & _ & ?)]; lia].
-    cbn [map concat]. rewrite <- app_assoc.
+    cbn [map concat]. rewrite <- app_assoc. rewrite zskipn_eq.
     rewrite skipn_app_len by (symmetry; apply to_nat_zlen).
     unfold enc_sentry at 1. rewrite <- !app_assoc.
     rewrite khdr_roundtrip by lia. cbn [kh_size].
@@ -275,7 +287,7 @@ Proof.
     + cbn [bind place]. do 2 f_equal.
       unfold rentry_of. f_equal.
       (* raw = table.raw[off + 21 : off + size] *)
-      unfold slice. change kent_hsize with 21.
+      rewrite zfirstn_eq, zskipn_eq. change kent_hsize with 21.
       generalize (concat (map enc_sentry es) ++ tail) as R. intros R. unfold enc_sentry.
       replace ((pre ++ enc_fields W_kent [se_type e; se_size e; se_pidx e; se_poff e; se_ck e; se_ins e; zlen (se_key e) + 1]
                   ++ se_key e ++ [0] ++ se_body e) ++ R)
@@ -389,6 +401,7 @@ Theorem walk_progress fuel : forall raw size eoff,
 Proof.
   induction fuel as [|fuel IH]; intros raw size eoff Hb He Hf; [lia|].
   cbn [walk]. destruct (eoff <? size); [|discriminate].
+  rewrite zskipn_eq.
   destruct (parse_khdr (skipn (Z.to_nat eoff) raw)) as [h|] eqn:Hp; [|discriminate].
   destruct (parse_khdr_some _ _ Hp) as [Hlen Hnn].
   specialize (Hnn (bytes_ok_skipn _ _ Hb)).
